@@ -964,6 +964,78 @@ fn model_states(ops: &[Op], levels: usize) -> Vec<(Model, Vec<usize>)> {
     out
 }
 
+// ---------------------------------------------------------------------------------------------
+// Open-handle probes: what the other calls see and do while an append() handle on the same file is
+// open. The alphabet's handle calls open, write and drop in one step; here other calls are placed
+// between those steps. Laws: an append never alters the existing prefix (so the old content stays
+// readable and copyable while the handle is open) and lands at the end of the file as it is when the
+// bytes are written through (O_APPEND semantics, two handles and appends in between included).
+// ---------------------------------------------------------------------------------------------
+pub fn open_handle_probes<V: VirtualFileSystem>(backend: &str, fs: &V, dir: &str) -> Vec<(String, String)> {
+    let mut out = vec![];
+    let f = format!("{}/probe-a", dir);
+    let g = format!("{}/probe-b", dir);
+    let res = catch_unwind(AssertUnwindSafe(|| -> Result<Vec<(String, String)>, String> {
+        let mut v = vec![];
+        let e = |x: RvError| x.to_string();
+        let rd = |p: &str| -> Result<String, String> { fs.read_all(p).map_err(|x| x.to_string()) };
+        for old in ["abc", "line1\n", "é"] {
+            // (1) reads and copies while the handle is open and nothing was written through it
+            fs.write_all(&f, old.as_bytes()).map_err(e)?;
+            let _ = fs.remove(&g);
+            let mut h = fs.append(&f).map_err(e)?;
+            let seen = rd(&f)?;
+            if seen != old {
+                v.push((format!("{} append handle open · read_all no longer returns the existing content", backend), format!("write_all(f, {:?}); h = append(f); read_all(f) = {:?}", old, seen)));
+            }
+            fs.copy(&f, &g).map_err(e)?;
+            let copied = rd(&g)?;
+            if copied != old {
+                v.push((format!("{} append handle open · copy of the file loses the existing content", backend), format!("write_all(f, {:?}); h = append(f); copy(f, g); read_all(g) = {:?}", old, copied)));
+            }
+            // (2) another append lands while the handle is open; the handle's bytes go to the end
+            fs.append_all(&f, b"DEFGH").map_err(e)?;
+            h.write_all(b"XY").map_err(|x| x.to_string())?;
+            h.flush().map_err(|x| x.to_string())?;
+            drop(h);
+            let fin = rd(&f)?;
+            // Memfs documents the handle as a private copy written back whole, so the intermediate append is
+            // the handle's to overwrite; what may never happen is that the old prefix or the handle's bytes vanish
+            let keeps_prefix = fin.starts_with(old);
+            let has_xy_at_end = fin.ends_with("XY");
+            if !keeps_prefix || !has_xy_at_end {
+                v.push((
+                    format!("{} append handle · bytes written through the handle are not at the end / the existing prefix changed", backend),
+                    format!("write_all(f, {:?}); h = append(f); append_all(f, \"DEFGH\"); h.write_all(\"XY\"); flush; drop -> read_all(f) = {:?}", old, fin),
+                ));
+            }
+        }
+        // (3) two append handles at once: both sets of bytes survive at the end, in some order
+        fs.write_all(&f, b"0").map_err(e)?;
+        let mut h1 = fs.append(&f).map_err(e)?;
+        let mut h2 = fs.append(&f).map_err(e)?;
+        h1.write_all(b"aaa").map_err(|x| x.to_string())?;
+        h1.flush().map_err(|x| x.to_string())?;
+        drop(h1);
+        h2.write_all(b"bb").map_err(|x| x.to_string())?;
+        h2.flush().map_err(|x| x.to_string())?;
+        drop(h2);
+        let fin = rd(&f)?;
+        if !fin.starts_with('0') || !fin.ends_with("bb") {
+            v.push((format!("{} two append handles · the later handle's bytes are not at the end / the first byte changed", backend), format!("write_all(f, \"0\"); h1 = append(f); h2 = append(f); h1 writes \"aaa\", drop; h2 writes \"bb\", drop -> read_all(f) = {:?}", fin)));
+        }
+        let _ = fs.remove(&f);
+        let _ = fs.remove(&g);
+        Ok(v)
+    }));
+    match res {
+        Ok(Ok(v)) => out.extend(v),
+        Ok(Err(e)) => out.push((format!("{} open-handle probe · a call failed", backend), e)),
+        Err(p) => out.push((format!("{} open-handle probe · panic", backend), panic_message(&p))),
+    }
+    out
+}
+
 pub fn worker(w: &mut WorkerCtx) {
     unsafe {
         libc::umask(0o022);
@@ -972,6 +1044,13 @@ pub fn worker(w: &mut WorkerCtx) {
     let ops = alphabet();
     let states = model_states(&ops, depth.saturating_sub(1));
     let sb = Sandbox::new("c06");
+    if w.shard == 0 {
+        for (sig, detail) in open_handle_probes("stdfs", &Stdfs::new(), &sb.root) {
+            w.vio(&sig, || detail, || J::obj([("part", J::s("open-handle-probe"))]));
+        }
+        w.count("open_handle_probes", 1);
+        sb.reset();
+    }
     let world = DiskWorld { root: sb.root.clone(), fs: Stdfs::new() };
     let nops = ops.len() as u64;
     let mut open_hits = 0u64;
@@ -1024,6 +1103,13 @@ pub fn run(ctx: &Ctx) -> i32 {
     quiet_panics();
     if let Some(p) = &ctx.replay {
         return replay(ctx, p);
+    }
+    {
+        let fs = Memfs::new();
+        let _ = fs.mkdir_p("/d");
+        for (sig, detail) in open_handle_probes("memfs", &fs, "/d") {
+            vio(&sig, || detail, || J::obj([("part", J::s("open-handle-probe"))]));
+        }
     }
     let ops = Arc::new(alphabet());
     let depth = ctx.tier.pick(4usize, 5usize);
@@ -1124,6 +1210,24 @@ pub fn run(ctx: &Ctx) -> i32 {
 fn replay(ctx: &Ctx, p: &std::path::Path) -> i32 {
     let j = json::parse(&std::fs::read_to_string(p).expect("read replay")).expect("parse replay");
     let case = j.get("case").expect("case");
+    if case.get("part").and_then(|x| x.as_str()) == Some("open-handle-probe") {
+        let fs = Memfs::new();
+        let _ = fs.mkdir_p("/d");
+        let mut found = open_handle_probes("memfs", &fs, "/d");
+        if unsafe { libc::geteuid() } == 0 {
+            let sb = Sandbox::new("c06probe");
+            found.extend(open_handle_probes("stdfs", &Stdfs::new(), &sb.root));
+        }
+        for (sig, detail) in &found {
+            println!("  {}: {}", sig, detail);
+        }
+        if found.is_empty() {
+            println!("holds on this case");
+            return 0;
+        }
+        println!("VIOLATION property={} replay={}", ctx.prop, p.display());
+        return 1;
+    }
     let backend = case.get("backend").and_then(|x| x.as_str()).unwrap_or("memfs").to_string();
     let ops = alphabet();
     let hist: Vec<usize> = case.get("history_idx").and_then(|x| x.as_arr()).map(|a| a.iter().filter_map(|x| x.as_i64()).map(|x| x as usize).collect()).unwrap_or_default();
